@@ -423,6 +423,9 @@ class SsbLabelJump(SsbOperation):
         self._root = root
         self.label = label
         self.markers = []
+        # True, if this jump was inserted by the decompiler (eg. for a break or continue) and is no operation of its own.
+        # It still carries the offset of the operation it was inserted after.
+        self.synthetic = False
 
     @property
     def maybe_root(self) -> SsbOperation | None:
